@@ -492,7 +492,7 @@ static Plan plan_C14(Rng& r, const std::string&) {
 			int k = r.range(1, 3);
 			for (int i = 0; i < k; ++i) {
 				switch (r.below(5)) {
-					case 0: case 1: g.push(mk(c, "et_reindex", {a, long(r.below(5)), long(r.below(100000)), long(r.below(2))}), 0); break;
+					case 0: case 1: g.push(mk(c, "et_reindex", {a, long(r.below(5)), long(r.below(100000)), long(r.below(4))}), 0); break;
 					case 2: g.push(mk(c, "et_collapse", {a, long(r.below(100000)), long(r.below(4))}), 0); break;
 					case 3: g.push(mk(c, "et_transl_syms", {a, long(r.below(100000)), long(r.below(4))}), 0); break;
 					default: {
